@@ -522,6 +522,8 @@ pub fn right_shift_u192(operand: &[u64], shift_amount: usize, result: &mut [u64]
         result[0] = operand[2]; result[1] = 0; result[2] = 0;
     } else if (shift_amount & 64) > 0 {
         result[0] = operand[1]; result[1] = operand[2]; result[2] = 0;
+    } else {
+        result[2] = operand[2]; result[1] = operand[1]; result[0] = operand[0];
     }
     let bit_shift_amount = shift_amount & 63;
     if bit_shift_amount > 0 {
@@ -653,7 +655,6 @@ pub fn multiply_uint_u64_inplace(operand1: &mut[u64], operand2: u64) {
         operand1[0] = operand1[0].wrapping_mul(operand2);
         return;
     }
-    set_zero_uint(operand1);
     let mut carry: u64 = 0;
     let operand1_index_max = std::cmp::min(operand1.len(), operand1.len());
     for operand1_index in 0..operand1_index_max {
@@ -670,7 +671,7 @@ pub fn multiply_uint_u64_inplace(operand1: &mut[u64], operand2: u64) {
 
 pub fn multiply_uint(operand1: &[u64], operand2: &[u64], result: &mut [u64]) {
     if operand1.is_empty() || operand2.is_empty() {return set_zero_uint(result);}
-    if result.len() == 1 {result[0] = operand1[0].wrapping_mul(operand1[0]); return;}
+    if result.len() == 1 {result[0] = operand1[0].wrapping_mul(operand2[0]); return;}
     let operand1_uint64_count = get_significant_uint64_count_uint(operand1);
     let operand2_uint64_count = get_significant_uint64_count_uint(operand2);
     if operand1_uint64_count == 1 {
